@@ -42,6 +42,9 @@ PROP = dict(
                            "config::del": 30000, "config::root::remove": 30000, "config::root::remove:clear": 5000,
                            "state:overwrite": 30000, "state:remove-inner-node": 5000, "state:long-value": 5000,
                            "state:del-explicit-length": 10000, "config::root::assign:refused": 50000,
+                           "config::global:roundtrip": 10000, "monitor:path-object-walks": 5000000, "path::operator=(temporary)": 1000000,
+                           "path::operator=(object)": 1000000, "path::operator=(self)": 1000000, "path::path(copy)": 1000000,
+                           "path::set": 1000000, "state:path-reused-after-walk": 2000000,
                            "universe:capacity-element": 3000, "state:capacity-name-level1": 20000, "state:capacity-name-level2": 15000,
                            "state:capacity-name-level3": 8000, "state:capacity-name-level4": 3000,
                            "state:refused-on-absent-path": 30000, "state:refused-with-absent-intermediate": 15000,
